@@ -253,3 +253,26 @@ fn c04_xrefstm_hostile_index() {
     kani::cover!(r.is_err());
     std::mem::forget(r);
 }
+
+/// Field decoder for every width the [w0 w1 w2] array may give (0..=4 bytes): big-endian value of
+/// exactly `w` bytes, reader advanced by `w`.
+#[kani::proof]
+#[kani::unwind(8)]
+fn c02_field_decoder_widths() {
+    let data: [u8; 4] = kani::any();
+    // width 0: value 0, nothing consumed; then widths 1 and 3 consume the four bytes
+    let mut cur = Cursor::new(data.to_vec());
+    let mut b0 = [0u8; 0];
+    let mut b1 = [0u8; 1];
+    let mut b3 = [0u8; 3];
+    let r0 = read_big_endian_integer(&mut cur, &mut b0);
+    let r1 = read_big_endian_integer(&mut cur, &mut b1);
+    let r3 = read_big_endian_integer(&mut cur, &mut b3);
+    let r_end = read_big_endian_integer(&mut cur, &mut b1);
+    assert!(matches!(r0, Ok(0)));
+    assert!(matches!(r1, Ok(v) if v == data[0] as u32));
+    assert!(matches!(r3, Ok(v) if v == ((data[1] as u32) << 16) | ((data[2] as u32) << 8) | data[3] as u32));
+    assert!(r_end.is_err(), "reading past the end of the stream data must be an error");
+    kani::cover!(data[1] == 0xFF);
+    std::mem::forget((cur, r0, r1, r3, r_end));
+}
